@@ -67,4 +67,427 @@ theorem applyEvent_hist (me blk : Nat) (n : Node) (e : Event) :
     (applyEvent me blk n e).1.hist = (regSteps me blk (viewOf n.reg) e).1.foldl stepHist n.hist := by
   simp [applyEvent, eventSteps, runSteps_hist, foldl_stepHist_flatMap_expand]
 
+
+/-! ## closed forms of the registry effect of the handlers' step lists -/
+
+theorem foldl_kmAddSteps (self : Nat) (sh : Share) (r : RegMem) : (kmAddSteps self sh).foldl stepReg r = r := by
+  unfold kmAddSteps; split
+  · split <;> simp [stepReg]
+  · rfl
+
+theorem foldl_kmRemoveSteps (self : Nat) (sh : Share) (r : RegMem) : (kmRemoveSteps self sh).foldl stepReg r = r := by
+  unfold kmRemoveSteps; split
+  · split <;> simp [stepReg]
+  · rfl
+
+theorem foldl_createSteps (self : Nat) (sh : Share) (r : RegMem) :
+    (createSteps self sh).foldl stepReg r =
+      { r with txn := { r.txn with shares := upsertShare sh r.txn.shares }, shares := upsertShare sh r.shares } := by
+  simp [createSteps, List.foldl_append, foldl_kmAddSteps, stepReg]
+
+theorem foldl_removeSteps (self : Nat) (sh : Share) (r : RegMem) :
+    (removeSteps self sh).foldl stepReg r =
+      { r with txn := { r.txn with shares := eraseShare sh.pk r.txn.shares }, shares := eraseShare sh.pk r.shares } := by
+  simp [removeSteps, foldl_kmRemoveSteps, stepReg]
+
+def upsertShares (l : List Share) (acc : List Share) : List Share := l.foldl (fun acc s => upsertShare s acc) acc
+
+theorem foldl_txnShares (l : List Share) (r : RegMem) :
+    (l.map Step.txnShare).foldl stepReg r = { r with txn := { r.txn with shares := upsertShares l r.txn.shares } } := by
+  induction l generalizing r with
+  | nil => rfl
+  | cons s l ih => simp [List.foldl_cons, ih, stepReg, upsertShares]
+
+theorem foldl_clusterSteps (v : View) (owner : Nat) (ops : List Nat) (b : Bool) (r : RegMem) :
+    (clusterSteps v owner ops b).1.foldl stepReg r =
+      if (clusterShares v owner ops).isEmpty then r
+      else
+        let upd := (clusterShares v owner ops).map (fun s => { s with liquidated := b })
+        { r with txn := { r.txn with shares := upsertShares upd r.txn.shares },
+                 shares := upsertShares upd (setLiquidated ((clusterShares v owner ops).map (·.pk)) b r.shares) } := by
+  simp only [clusterSteps]
+  split
+  · rfl
+  · simp only [List.foldl_append, List.foldl_cons, List.foldl_nil, foldl_txnShares, stepReg, upsertShares]
+
+/-- the share a ValidatorAdded event creates, if it passes every guard -/
+def vaCreates (r : RegMem) (owner pk : Nat) (sn : Option Nat) (len : Nat) (ms : List Member) : Option Share :=
+  if validateOperators r.txn.ops (ms.map (·.op)) = none ∧ len = expectedSharesLen ms.length ∧
+     sn = some (nextNonce r.txn.recips owner) ∧ findShare r.shares pk = none then
+    match scanCommittee r.self ms with
+    | .ok own => some (newShare r.self owner pk ms own)
+    | .error _ => none
+  else none
+
+def bumpReg (r : RegMem) (owner : Nat) : RegMem :=
+  { r with txn := { r.txn with recips := upsertRecip (bumped r.txn.recips owner) r.txn.recips } }
+
+theorem regEvent_validatorAdded (me blk : Nat) (r : RegMem) (owner pk : Nat) (sn : Option Nat) (len : Nat) (ms : List Member) :
+    regEvent me blk r (.validatorAdded owner pk sn len ms) =
+      match vaCreates r owner pk sn len ms with
+      | some sh => { bumpReg r owner with
+                      txn := { (bumpReg r owner).txn with shares := upsertShare sh r.txn.shares },
+                      shares := upsertShare sh r.shares }
+      | none => bumpReg r owner := by
+  simp only [regEvent, regSteps, addSteps, viewOf, vaCreates]
+  cases hv : validateOperators r.txn.ops (ms.map (·.op)) with
+  | some t => simp [stepReg, bumpReg]
+  | none =>
+    by_cases hl : len = expectedSharesLen ms.length
+    · by_cases hs : sn = some (nextNonce r.txn.recips owner)
+      · cases hf : findShare r.shares pk with
+        | none =>
+          cases hc : scanCommittee r.self ms with
+          | error t => simp [hl, hs, stepReg, bumpReg]
+          | ok own => simp [hl, hs, foldl_createSteps, stepReg, bumpReg]
+        | some sh => by_cases ho : owner = sh.owner <;> simp [hl, hs, ho, stepReg, bumpReg]
+      · simp [hl, hs, stepReg, bumpReg]
+    · simp [hl, stepReg, bumpReg]
+
+theorem regEvent_operatorAdded (me blk : Nat) (r : RegMem) (id owner pk : Nat) :
+    regEvent me blk r (.operatorAdded id owner pk) =
+      if (r.self != 0 && pk == me && r.self != id) = true then r
+      else if hasOp r.db.ops id = true then r
+      else if (pk == me) = true then
+        { r with txn := { r.txn with ops := upsertOp ⟨id, pk, owner⟩ r.txn.ops }, self := id }
+      else { r with txn := { r.txn with ops := upsertOp ⟨id, pk, owner⟩ r.txn.ops } } := by
+  dsimp only [regEvent, regSteps, viewOf]
+  cases h1 : (r.self != 0 && pk == me && r.self != id)
+  · simp only [Bool.false_eq_true, ↓reduceIte]
+    cases h2 : hasOp r.db.ops id
+    · simp only [Bool.false_eq_true, ↓reduceIte]
+      cases h3 : (pk == me) <;> simp [stepReg]
+    · simp
+  · simp
+
+theorem regEvent_operatorRemoved (me blk : Nat) (r : RegMem) (id : Nat) :
+    regEvent me blk r (.operatorRemoved id) = r := by
+  by_cases h : hasOp r.txn.ops id = true <;> simp [regEvent, regSteps, viewOf, h]
+
+theorem regEvent_validatorRemoved (me blk : Nat) (r : RegMem) (owner pk : Nat) (ops : List Nat) :
+    regEvent me blk r (.validatorRemoved owner pk ops) =
+      match findShare r.shares pk with
+      | none => r
+      | some sh =>
+        if (owner != sh.owner) = true then r
+        else { r with txn := { r.txn with shares := eraseShare sh.pk r.txn.shares }, shares := eraseShare sh.pk r.shares } := by
+  cases hf : findShare r.shares pk with
+  | none => simp [regEvent, regSteps, viewOf, hf]
+  | some sh => by_cases ho : (owner != sh.owner) = true <;> simp [regEvent, regSteps, viewOf, hf, ho, foldl_removeSteps]
+
+theorem regEvent_validatorExited (me blk : Nat) (r : RegMem) (owner pk : Nat) (ops : List Nat) :
+    regEvent me blk r (.validatorExited owner pk ops) = r := by
+  cases hf : findShare r.shares pk with
+  | none => simp [regEvent, regSteps, viewOf, hf]
+  | some sh =>
+    by_cases ho : (owner != sh.owner) = true
+    · simp [regEvent, regSteps, viewOf, hf, ho]
+    · by_cases hb : belongs r.self sh = true
+      · cases hm : sh.bmeta <;> simp [regEvent, regSteps, viewOf, hf, ho, hb, hm]
+      · simp [regEvent, regSteps, viewOf, hf, ho, hb]
+
+/-- registry effect of ClusterLiquidated (b = true) / ClusterReactivated (b = false) -/
+def clusterEffect (r : RegMem) (owner : Nat) (ops : List Nat) (b : Bool) : RegMem :=
+  if (clusterShares (viewOf r) owner ops).isEmpty then r
+  else
+    let upd := (clusterShares (viewOf r) owner ops).map (fun s => { s with liquidated := b })
+    { r with txn := { r.txn with shares := upsertShares upd r.txn.shares },
+             shares := upsertShares upd (setLiquidated ((clusterShares (viewOf r) owner ops).map (·.pk)) b r.shares) }
+
+theorem regEvent_clusterLiquidated (me blk : Nat) (r : RegMem) (owner : Nat) (ops : List Nat) :
+    regEvent me blk r (.clusterLiquidated owner ops) = clusterEffect r owner ops true := by
+  simp only [regEvent, regSteps, foldl_clusterSteps, clusterEffect]
+
+theorem regEvent_clusterReactivated (me blk : Nat) (r : RegMem) (owner : Nat) (ops : List Nat) :
+    regEvent me blk r (.clusterReactivated owner ops) = clusterEffect r owner ops false := by
+  simp only [regEvent, regSteps, foldl_clusterSteps, clusterEffect]
+
+theorem regEvent_feeRecipientUpdated (me blk : Nat) (r : RegMem) (owner fee : Nat) :
+    regEvent me blk r (.feeRecipientUpdated owner fee) =
+      match findRecip r.txn.recips owner with
+      | some x =>
+        if (x.fee == fee) = true then r
+        else { r with txn := { r.txn with recips := upsertRecip { x with fee := fee } r.txn.recips } }
+      | none => { r with txn := { r.txn with recips := upsertRecip ⟨owner, fee, none⟩ r.txn.recips } } := by
+  cases hf : findRecip r.txn.recips owner with
+  | none => simp [regEvent, regSteps, viewOf, hf, stepReg]
+  | some x => by_cases hq : (x.fee == fee) = true <;> simp [regEvent, regSteps, viewOf, hf, hq, stepReg]
+
+theorem regEvent_unparsable (me blk : Nat) (r : RegMem) : regEvent me blk r .unparsable = r := rfl
+theorem regEvent_unknownTopic (me blk : Nat) (r : RegMem) : regEvent me blk r .unknownTopic = r := rfl
+theorem regEvent_noTopics (me blk : Nat) (r : RegMem) : regEvent me blk r .noTopics = r := rfl
+
+
+/-! ## the registry projection of blocks and runs -/
+
+def regEvents (me blk : Nat) : RegMem → List Event → RegMem × Bool
+  | r, [] => (r, false)
+  | r, e :: es =>
+    if (regOutcome me blk r e).isPanic then (regEvent me blk r e, true)
+    else regEvents me blk (regEvent me blk r e) es
+
+def beginReg (r : RegMem) : RegMem := { r with txn := r.db }
+
+def commitReg (r : RegMem) (m : Nat) : RegMem :=
+  { r with txn := { r.txn with marker := some m }, db := { r.txn with marker := some m } }
+
+def regBlock (me : Nat) (r : RegMem) (b : Block) : RegMem × BlockStatus :=
+  if decide (r.db.marker.getD 0 ≥ b.number) then (r, .refused)
+  else
+    let q := regEvents me b.number (beginReg r) b.events
+    if q.2 then (beginReg q.1, .panicked) else (commitReg q.1 b.number, .ok)
+
+def regRun (me : Nat) : RegMem → List Block → RegMem × Bool
+  | r, [] => (r, true)
+  | r, b :: bs =>
+    match (regBlock me r b).2 with
+    | .ok => regRun me (regBlock me r b).1 bs
+    | _ => ((regBlock me r b).1, false)
+
+theorem runEvents_reg (me blk : Nat) (n : Node) (es : List Event) :
+    (runEvents me blk n es).1.reg = (regEvents me blk n.reg es).1 ∧
+    (runEvents me blk n es).2.2 = (regEvents me blk n.reg es).2 := by
+  induction es generalizing n with
+  | nil => exact ⟨rfl, rfl⟩
+  | cons e es ih =>
+    simp only [runEvents, regEvents, applyEvent_outcome]
+    by_cases hp : (regOutcome me blk n.reg e).isPanic = true
+    · simp [hp, applyEvent_reg]
+    · simp only [hp, Bool.false_eq_true, ↓reduceIte]
+      have := ih (applyEvent me blk n e).1
+      rw [applyEvent_reg] at this
+      exact this
+
+theorem beginTxn_reg (n : Node) : (beginTxn n).reg = beginReg n.reg := rfl
+
+theorem commit_reg (n : Node) (m : Nat) : (runSteps n [.putMarker m, .commit]).reg = commitReg n.reg m := by
+  simp [runSteps, applyStep, stepReg, commitReg]
+
+theorem applyBlock_reg (me : Nat) (n : Node) (b : Block) :
+    (applyBlock me n b).1.reg = (regBlock me n.reg b).1 ∧ (applyBlock me n b).2.1 = (regBlock me n.reg b).2 := by
+  simp only [applyBlock, regBlock, inferior]
+  by_cases hi : decide (n.reg.db.marker.getD 0 ≥ b.number) = true
+  · simp [hi]
+  · simp only [hi, Bool.false_eq_true, ↓reduceIte]
+    have h := runEvents_reg me b.number (beginTxn n) b.events
+    rw [beginTxn_reg] at h
+    by_cases hp : (regEvents me b.number (beginReg n.reg) b.events).2 = true
+    · simp [h.2, hp, beginTxn_reg, h.1]
+    · simp [h.2, hp, commit_reg, h.1]
+
+theorem run_reg (me : Nat) (n : Node) (bs : List Block) :
+    (run me n bs).1.reg = (regRun me n.reg bs).1 ∧ (run me n bs).2 = (regRun me n.reg bs).2 := by
+  induction bs generalizing n with
+  | nil => exact ⟨rfl, rfl⟩
+  | cons b bs ih =>
+    simp only [run, regRun]
+    have h := applyBlock_reg me n b
+    rw [h.2]
+    cases hs : (regBlock me n.reg b).2 with
+    | ok => simp only []; rw [← h.1]; exact ih _
+    | refused => simp [h.1]
+    | panicked => simp [h.1]
+
+/-- Induction over successful runs: `B` holds between blocks, `P` inside a block; both may refer to the list of
+    events processed so far. -/
+theorem regRun_induction (me : Nat) (B P : List Event → RegMem → Prop)
+    (hBP : ∀ evs r, B evs r → P evs (beginReg r))
+    (hP : ∀ evs r blk e, P evs r → (regOutcome me blk r e).isPanic = false → P (evs ++ [e]) (regEvent me blk r e))
+    (hPB : ∀ evs r m, P evs r → B evs (commitReg r m)) :
+    ∀ (bs : List Block) (pre : List Event) (r : RegMem), B pre r → (regRun me r bs).2 = true →
+      B (pre ++ flatten bs) (regRun me r bs).1 := by
+  have hev : ∀ (blk : Nat) (es : List Event) (pre : List Event) (r : RegMem), P pre r →
+      (regEvents me blk r es).2 = false → P (pre ++ es) (regEvents me blk r es).1 := by
+    intro blk es
+    induction es with
+    | nil => intro pre r h _; simpa [regEvents] using h
+    | cons e es ih =>
+      intro pre r h hnp
+      simp only [regEvents] at hnp ⊢
+      by_cases hp : (regOutcome me blk r e).isPanic = true
+      · simp [hp] at hnp
+      · simp only [hp, Bool.false_eq_true, ↓reduceIte] at hnp ⊢
+        have := ih (pre ++ [e]) _ (hP pre r blk e h (by simpa using hp)) hnp
+        simpa [List.append_assoc] using this
+  intro bs
+  induction bs with
+  | nil => intro pre r h _; simpa [regRun, flatten] using h
+  | cons b bs ih =>
+    intro pre r h hok
+    simp only [regRun] at hok ⊢
+    cases hs : (regBlock me r b).2 with
+    | refused => simp [hs] at hok
+    | panicked => simp [hs] at hok
+    | ok =>
+      simp only [hs] at hok ⊢
+      -- the block was processed: not inferior, no panic
+      have hb : (regBlock me r b).1 = commitReg (regEvents me b.number (beginReg r) b.events).1 b.number ∧
+                (regEvents me b.number (beginReg r) b.events).2 = false := by
+        simp only [regBlock] at hs ⊢
+        by_cases hi : decide (r.db.marker.getD 0 ≥ b.number) = true
+        · simp [hi] at hs
+        · simp only [hi, Bool.false_eq_true, ↓reduceIte] at hs ⊢
+          by_cases hp : (regEvents me b.number (beginReg r) b.events).2 = true
+          · simp [hp] at hs
+          · simp [hp]
+      have h1 := hev b.number b.events pre (beginReg r) (hBP pre r h) hb.2
+      have h2 := hPB _ _ b.number h1
+      rw [← hb.1] at h2
+      have := ih (pre ++ b.events) _ h2 hok
+      simpa [flatten, List.append_assoc] using this
+
+
+/-! ## the shares map: memory and transaction stay in step -/
+
+def NodupPk (l : List Share) : Prop := (l.map (·.pk)).Nodup
+
+theorem upsertShare_of_not_mem (s : Share) (l : List Share) (h : s.pk ∉ l.map (·.pk)) : upsertShare s l = l ++ [s] := by
+  induction l with
+  | nil => rfl
+  | cons x xs ih =>
+    simp only [List.map_cons, List.mem_cons, not_or] at h
+    have hx : (x.pk == s.pk) = false := by simpa using fun e => h.1 e.symm
+    simp [upsertShare, hx, ih h.2]
+
+theorem upsertShare_eq_map (s : Share) (l : List Share) (hn : NodupPk l) (h : s.pk ∈ l.map (·.pk)) :
+    upsertShare s l = l.map (fun x => if x.pk = s.pk then s else x) := by
+  induction l with
+  | nil => simp at h
+  | cons x xs ih =>
+    have hn' : x.pk ∉ xs.map (·.pk) ∧ NodupPk xs := by simpa [NodupPk, List.nodup_cons] using hn
+    by_cases hx : x.pk = s.pk
+    · have hxs : xs.map (fun y => if y.pk = s.pk then s else y) = xs := by
+        have : ∀ y ∈ xs, (if y.pk = s.pk then s else y) = y := by
+          intro y hy
+          have : y.pk ≠ s.pk := fun e => hn'.1 (by rw [hx, ← e]; exact List.mem_map_of_mem hy)
+          simp [this]
+        calc xs.map (fun y => if y.pk = s.pk then s else y) = xs.map id := List.map_congr_left (by simpa using this)
+          _ = xs := by simp
+      simp only [upsertShare, hx, beq_self_eq_true, ↓reduceIte, List.map_cons, hxs]
+    · have hmem : s.pk ∈ xs.map (·.pk) := by
+        simp only [List.map_cons, List.mem_cons] at h
+        rcases h with h | h
+        · exact absurd h.symm hx
+        · exact h
+      have hx' : (x.pk == s.pk) = false := by simpa using hx
+      simp only [upsertShare, hx', Bool.false_eq_true, ↓reduceIte, List.map_cons, hx, ih hn'.2 hmem]
+
+theorem upsertShare_pks_of_mem (s : Share) (l : List Share) (hn : NodupPk l) (h : s.pk ∈ l.map (·.pk)) :
+    (upsertShare s l).map (·.pk) = l.map (·.pk) := by
+  rw [upsertShare_eq_map s l hn h, List.map_map]
+  apply List.map_congr_left
+  intro x _
+  simp only [Function.comp]
+  by_cases hx : x.pk = s.pk
+  · simp only [hx, ↓reduceIte]
+  · simp only [hx, ↓reduceIte]
+
+theorem nodupPk_upsert (s : Share) (l : List Share) (hn : NodupPk l) : NodupPk (upsertShare s l) := by
+  by_cases h : s.pk ∈ l.map (·.pk)
+  · unfold NodupPk; rw [upsertShare_pks_of_mem s l hn h]; exact hn
+  · rw [upsertShare_of_not_mem s l h]
+    unfold NodupPk at *
+    rw [List.map_append, List.nodup_append]
+    refine ⟨hn, by simp, ?_⟩
+    intro a ha b hb
+    simp at hb
+    subst hb
+    exact fun e => h (e ▸ ha)
+
+theorem nodupPk_erase (pk : Nat) (l : List Share) (hn : NodupPk l) : NodupPk (eraseShare pk l) := by
+  unfold NodupPk eraseShare at *
+  exact List.Pairwise.sublist ((List.filter_sublist).map _) hn
+
+/-- the element of `u` that replaces `x` (same validator key), if any -/
+def repl (u : List Share) (x : Share) : Share :=
+  match u.find? (fun y => y.pk == x.pk) with
+  | some y => y
+  | none => x
+
+theorem repl_pk (u : List Share) (x : Share) : (repl u x).pk = x.pk := by
+  unfold repl
+  cases h : u.find? (fun y => y.pk == x.pk) with
+  | none => rfl
+  | some y => simpa using List.find?_some h
+
+theorem upsertShares_eq_map (u l : List Share) (hl : NodupPk l) (hu : NodupPk u)
+    (hsub : ∀ y ∈ u, y.pk ∈ l.map (·.pk)) : upsertShares u l = l.map (repl u) := by
+  induction u generalizing l with
+  | nil =>
+    have : repl [] = id := by funext x; rfl
+    simp [upsertShares, this]
+  | cons y ys ih =>
+    have hu' : y.pk ∉ ys.map (·.pk) ∧ NodupPk ys := by simpa [NodupPk, List.nodup_cons] using hu
+    have hy : y.pk ∈ l.map (·.pk) := hsub y (by simp)
+    have hl1 : NodupPk (upsertShare y l) := nodupPk_upsert y l hl
+    have hsub1 : ∀ z ∈ ys, z.pk ∈ (upsertShare y l).map (·.pk) := by
+      intro z hz; rw [upsertShare_pks_of_mem y l hl hy]; exact hsub z (by simp [hz])
+    have := ih (upsertShare y l) hl1 hu'.2 hsub1
+    show upsertShares ys (upsertShare y l) = _
+    rw [this, upsertShare_eq_map y l hl hy, List.map_map]
+    apply List.map_congr_left
+    intro x _
+    simp only [Function.comp]
+    by_cases hxe : x.pk = y.pk
+    · have hnone : ys.find? (fun z => z.pk == y.pk) = none := by
+        rw [List.find?_eq_none]
+        intro z hz
+        have : z.pk ≠ y.pk := fun e => hu'.1 (e ▸ List.mem_map_of_mem hz)
+        simpa using this
+      simp only [hxe, ↓reduceIte, repl, hnone, List.find?_cons, beq_self_eq_true]
+    · have hyx : (y.pk == x.pk) = false := by simpa using fun e => hxe e.symm
+      simp only [hxe, ↓reduceIte, repl, List.find?_cons, hyx]
+
+theorem nodupPk_map_repl (u l : List Share) (hl : NodupPk l) : NodupPk (l.map (repl u)) := by
+  unfold NodupPk at *
+  rw [List.map_map]
+  have : (fun x => x.pk) ∘ repl u = fun x => x.pk := by funext x; simp [repl_pk]
+  rw [this]; exact hl
+
+/-- the in-memory mutation of processClusterEvent followed by Save is the same update as the one written
+    through the transaction -/
+theorem cluster_sync (l own : List Share) (b : Bool) (hl : NodupPk l) (hown : ∃ p, own = l.filter p) :
+    upsertShares (own.map (fun s => { s with liquidated := b })) (setLiquidated (own.map (·.pk)) b l) =
+      upsertShares (own.map (fun s => { s with liquidated := b })) l ∧
+    NodupPk (upsertShares (own.map (fun s => { s with liquidated := b })) l) := by
+  obtain ⟨p, rfl⟩ := hown
+  have hupk : ((l.filter p).map (fun s : Share => { s with liquidated := b })).map (·.pk) = (l.filter p).map (·.pk) := by
+    rw [List.map_map]; rfl
+  have hu : NodupPk ((l.filter p).map (fun s : Share => { s with liquidated := b })) := by
+    unfold NodupPk; rw [hupk]
+    exact List.Pairwise.sublist ((List.filter_sublist).map _) hl
+  have hsub : ∀ y ∈ (l.filter p).map (fun s : Share => { s with liquidated := b }), y.pk ∈ l.map (·.pk) := by
+    intro y hy
+    have : y.pk ∈ ((l.filter p).map (fun s : Share => { s with liquidated := b })).map (·.pk) := List.mem_map_of_mem hy
+    rw [hupk] at this
+    exact (List.filter_sublist.map _).subset this
+  have hl2pk : (setLiquidated ((l.filter p).map (·.pk)) b l).map (·.pk) = l.map (·.pk) := by
+    unfold setLiquidated; rw [List.map_map]; apply List.map_congr_left; intro x _
+    simp only [Function.comp]; split <;> rfl
+  have hl2 : NodupPk (setLiquidated ((l.filter p).map (·.pk)) b l) := by unfold NodupPk; rw [hl2pk]; exact hl
+  have hsub2 : ∀ y ∈ (l.filter p).map (fun s : Share => { s with liquidated := b }),
+      y.pk ∈ (setLiquidated ((l.filter p).map (·.pk)) b l).map (·.pk) := by rw [hl2pk]; exact hsub
+  refine ⟨?_, ?_⟩
+  · rw [upsertShares_eq_map _ _ hl2 hu hsub2, upsertShares_eq_map _ _ hl hu hsub]
+    unfold setLiquidated
+    rw [List.map_map]
+    apply List.map_congr_left
+    intro x _
+    simp only [Function.comp]
+    by_cases hc : ((l.filter p).map (·.pk)).contains x.pk = true
+    · simp only [hc, ↓reduceIte]
+      -- some element of the update has this key, so the replacement does not look at the flag
+      unfold repl
+      have : ∃ y ∈ (l.filter p).map (fun s : Share => { s with liquidated := b }), (y.pk == x.pk) = true := by
+        have : x.pk ∈ ((l.filter p).map (fun s : Share => { s with liquidated := b })).map (·.pk) := by
+          rw [hupk]; simpa using hc
+        obtain ⟨y, hy, hye⟩ := List.mem_map.1 this
+        exact ⟨y, hy, by simp [hye]⟩
+      obtain ⟨y, hy, hye⟩ := this
+      cases hf : ((l.filter p).map (fun s : Share => { s with liquidated := b })).find? (fun y => y.pk == x.pk) with
+      | none => exact absurd hye (by simpa using (List.find?_eq_none.1 hf) y hy)
+      | some z => rfl
+    · rw [if_neg hc]
+  · rw [upsertShares_eq_map _ _ hl hu hsub]; exact nodupPk_map_repl _ _ hl
+
 end Ssv.Registry
